@@ -68,7 +68,7 @@ def symbolize(exe, text):
 def run_check(prop, tier):
     spec = CHECKS[prop]
     runs = spec[tier] if tier in spec else spec["quick"]
-    budget = float(os.environ.get("VERIF_BUDGET_S", spec.get("budget", {}).get(tier, 240 if tier == "quick" else 2400)))
+    budget = float(os.environ.get("VERIF_BUDGET_S", spec.get("budget", {}).get(tier, 240 if tier == "quick" else 900)))
     seed = int(os.environ.get("VERIF_SEED", "0") or 0)
     t0 = time.time()
     outdir = os.path.join(OUT, prop)
